@@ -86,10 +86,12 @@ def _rxn(rid, mets, lb, ub, ann=None):
 
 
 @st.composite
-def model_specs(draw):
+def model_specs(draw, forced_one_in=30):
     ext = draw(st.sampled_from(["e", "e", "e", "out", "extracellular"]))
     n_ex = draw(st.sampled_from([1, 2, 3, 3, 4, 4, 4, 5, 5, 6]))
     mets, rxns, cmets, emets = [], [], [], []
+    importable, exportable = [], []
+    n_total = n_ex  # never more than 6 exchanges: the reference enumerates all subsets
     for k in range(n_ex):
         way = draw(st.sampled_from(["consume", "produce"]))
         sbo_only = k > 0 and draw(st.integers(0, 7)) == 0
@@ -107,30 +109,46 @@ def model_specs(draw):
             ann = draw(st.sampled_from([{}, {}, {}, {"sbo": SBO_EX}, {"sbo": "sbo:0000627"}, {"sbo": [SBO_EX, "SBO:0000000"]}]))
             tlb, tub = draw(st.sampled_from([(-100, 100)] * 7 + [(0, 100), (0, 100), (0, 10), (0, 10), (-100, 0)]))
             rxns.append(_rxn(f"T_x{k}", {on: -1, cid: 1}, tlb, tub))
+        can_in, can_out = sbo_only or tub > 0, sbo_only or tlb < 0
         imp = draw(st.sampled_from([0, 1, 5, 5, 10, 10, 10, 100, 100, 2.5]))
         exp = draw(st.sampled_from([0, 10, 100, 100, 100]))
-        if draw(st.integers(0, 29)) == 0:  # forced export
+        if draw(st.integers(1, forced_one_in)) == 1:  # forced export
             imp = -draw(st.sampled_from([1, 2]))
             exp = max(exp, 10)
+        if can_in and imp > 0:
+            importable.append(cid)
+        if can_out and exp > 0:
+            exportable.append(cid)
         if way == "consume":  # "met -->": uptake is negative flux
             rxns.append(_rxn(f"EX_x{k}", {on: -mag}, -imp, exp, ann))
         else:  # "--> met": uptake is positive flux
             rxns.append(_rxn(f"EX_x{k}", {on: mag}, -exp, imp, ann))
+        if n_total < 6 and not sbo_only and draw(st.integers(0, 7)) == 0:
+            n_total += 1
+            # a second exchange on the same external metabolite, written the other way round
+            imp2, exp2 = draw(st.sampled_from([1, 5, 10, 100])), draw(st.sampled_from([0, 10, 100]))
+            if way == "consume":
+                rxns.append(_rxn(f"EX_x{k}_alt", {on: 1}, -exp2, imp2))
+            else:
+                rxns.append(_rxn(f"EX_x{k}_alt", {on: -1}, -imp2, exp2))
 
     k_req = draw(st.integers(1, min(3, n_ex)))
-    req = draw(st.lists(st.sampled_from(cmets), min_size=k_req, max_size=k_req, unique=True))
+    pool = importable if len(importable) >= k_req and draw(st.integers(0, 3)) > 0 else cmets
+    req = draw(st.lists(st.sampled_from(pool), min_size=k_req, max_size=k_req, unique=True))
     bio = {m: -draw(st.sampled_from([1, 1, 2, 3, 0.5])) for m in req}
     rest = [m for m in cmets if m not in req]
     if rest and draw(st.integers(0, 2)) > 0:  # by-product that has to leave the cell
-        bio[draw(st.sampled_from(rest))] = draw(st.sampled_from([1, 1, 2]))
+        out_pool = [m for m in rest if m in exportable]
+        bio[draw(st.sampled_from(out_pool if out_pool and draw(st.integers(0, 3)) > 0 else rest))] = draw(st.sampled_from([1, 1, 2]))
     rxns.append(_rxn("BIOMASS", bio, 0, draw(st.sampled_from([100, 100, 1000, 10]))))
 
     if n_ex >= 2:
         n_conv = draw(st.integers(0, 3))
+        subs = [m for m in rest if m in importable] or rest
         for i in range(n_conv):
             a, b = draw(st.lists(st.sampled_from(cmets), min_size=2, max_size=2, unique=True))
-            if rest and draw(st.booleans()):  # a substitute: another nutrient can replace a required one
-                a, b = draw(st.sampled_from(rest)), draw(st.sampled_from(req))
+            if subs and draw(st.integers(0, 2)) > 0:  # a substitute: another nutrient can replace a required one
+                a, b = draw(st.sampled_from(subs)), draw(st.sampled_from(req))
             lb, ub = draw(st.sampled_from([(0, 100), (0, 100), (-100, 100), (0, 10)]))
             rxns.append(_rxn(f"CONV{i}", {a: -draw(st.sampled_from([1, 1, 2])), b: draw(st.sampled_from([1, 1, 2]))}, lb, ub))
         if draw(st.integers(0, 3)) == 0:
@@ -158,7 +176,7 @@ def model_specs(draw):
                 rxns.append(_rxn(f"EX_like_{i}", {m: c}, lb, ub, {"sbo": [SBO_DM]}))
 
     objective = {"BIOMASS": 1}
-    if draw(st.integers(0, 4)) == 0:
+    if draw(st.integers(0, 7)) == 0:
         others = [r["id"] for r in rxns if not r["id"].startswith("EX_x") and r["id"] != "BIOMASS"]
         if others:
             objective[draw(st.sampled_from(others))] = draw(st.sampled_from([0.5, 1, 2]))
@@ -173,7 +191,7 @@ MEDIUM_VALUES = [0, 0.0, 0.5, 1, 1.0, 2.5, 10, 10.0, 100, 1000]
 
 @st.composite
 def cases(draw, kind):
-    spec = draw(model_specs())
+    spec = draw(model_specs(forced_one_in=8 if kind == "setget" else 30))
     ex_ids = [r["id"] for r in spec["rxns"] if r["id"].startswith("EX_x")]
     case = {"kind": kind, "spec": spec, "path": draw(st.sampled_from(build.BUILD_PATHS))}
     if kind == "setget":
@@ -192,11 +210,11 @@ def cases(draw, kind):
                 steps.append({"op": "set", "items": [[rid, draw(st.sampled_from(MEDIUM_VALUES))] for rid in ids]})
         case["steps"] = steps
     else:
-        case["mov"] = draw(st.sampled_from([["frac", 0.1], ["frac", 0.25], ["frac", 0.5], ["frac", 0.5], ["frac", 0.9], ["frac", 1.0],
+        case["mov"] = draw(st.sampled_from([["frac", 0.1], ["frac", 0.25], ["frac", 0.25], ["frac", 0.4], ["frac", 0.5], ["frac", 0.9], ["frac", 1.0],
                                             ["frac", 1.5], ["plus", 1], ["default", 0.1]]))
         case["mov_fallback"] = draw(st.sampled_from([0.1, 1]))
         case["exports"] = draw(st.booleans())
-        case["minimize_components"] = draw(st.sampled_from([False, False, False, True, True, 2, 2, 3]))
+        case["minimize_components"] = draw(st.sampled_from([False, False, False, True, True, 2, 2, 3, 3]))
         case["open_exchanges"] = draw(st.sampled_from([False, False, False, False, True, 5, 20, 100]))
     return case
 
@@ -597,7 +615,7 @@ def check_minimal(case, ctx, model, ex, classes, rich):
         undetermined += 1
 
     media = _media_from_result(res, n_alt)
-    classes.append("result-medium" if len(media) == 1 else f"result-alternatives-{len(media)}")
+    classes.append("result-medium" if len(media) == 1 else f"result-columns-{len(media)}")
     if n_alt >= 2:
         classes.append("alternatives-requested")
     if len(media) > max(1, n_alt):
@@ -681,6 +699,14 @@ def check_minimal(case, ctx, model, ex, classes, rich):
                 continue
             _v(kind, f"{call}: alternatives #{i} and #{j} have the same components {sorted(supports[i])}: {media[i]} / {media[j]}")
 
+    if n_alt >= 2:
+        classes.append(f"alternatives-distinct-{len(set(supports))}")
+        if len(media) < n_alt and "component-count-undetermined" not in classes:
+            union = frozenset().union(*supports)
+            k = len(supports[0])
+            missed = sorted(sorted(s) for s, g in subsets.items() if len(s) == k and g is not None and g >= exact_value + band and not s <= union)
+            if missed:
+                classes.append("alternative-missed-weak")
     if not mc:
         nontrivial = rich and len(supports[0]) >= 2
         classes.append(f"components-{min(len(supports[0]), 3)}{'+' if len(supports[0]) >= 3 else ''}")
